@@ -300,6 +300,25 @@ pub fn cli_roundtrip(thorough: bool, seed: u64) {
                 o2.stderr.lines().last().unwrap_or("").chars().take(200).collect::<String>()
             );
         }
+        // the same through streams instead of regular files (a pipe has no length and hands its data out in pieces): the
+        // dictionary read from /dev/stdin, the model read from /dev/stdin, the dump written to /dev/stdout
+        if i % 3 == 2 && o1.code == Some(0) {
+            let csv_bytes = std::fs::read(&cp).unwrap_or_default();
+            let op3 = dir.join("out3.zst");
+            let _ = std::fs::remove_file(&op3);
+            let o5 = crate::cli::run_tool("manipulate_model", &["--model-in".into(), s(&mp), "--replace-dict".into(), "/dev/stdin".into(), "--model-out".into(), s(&op3)], &csv_bytes);
+            let back3 = crate::cli::read_zst(&op3);
+            if o5.code != Some(0) || back3.as_deref() != Some(&bytes[..]) {
+                fails += 1;
+                println!("FAIL case={i} model={} the dumped dictionary fed back through a pipe (--replace-dict /dev/stdin): exit {:?}, output model identical={}, dictionary entries in the output: {:?}", m.to_text(), o5.code, back3.as_deref() == Some(&bytes[..]), back3.as_deref().and_then(crate::model::AbsModel::from_bytes).map(|x| x.dict.len()));
+            }
+            let zst_bytes = std::fs::read(&mp).unwrap_or_default();
+            let o6 = crate::cli::run_tool("manipulate_model", &["--model-in".into(), "/dev/stdin".into(), "--dump-dict".into(), "/dev/stdout".into()], &zst_bytes);
+            if o6.code != Some(0) || o6.stdout != csv_bytes {
+                fails += 1;
+                println!("FAIL case={i} model={} the model read from a pipe and the dictionary dumped to a pipe (--model-in /dev/stdin --dump-dict /dev/stdout): exit {:?}, {} bytes, the dump into a file has {} bytes", m.to_text(), o6.code, o6.stdout.len(), csv_bytes.len());
+            }
+        }
         // dump and replace in ONE invocation, through the same file: the tool must still reproduce the model
         if i % 4 == 1 {
             let (cp2, op2) = (dir.join("dict2.csv"), dir.join("out2.zst"));
